@@ -233,7 +233,10 @@ func (self *Analyzer) identExpression(node pAst.IdentExpression) ast.AnalyzedIde
 		}
 
 		// only mark the function as `used` if the usage originates from another function
-		if self.currentModule.CurrentFunction.FnType.Kind() == normalFunctionKind {
+		// (a global initialiser is not inside any function: this use always counts)
+		if self.currentModule.CurrentFunction == nil {
+			fn.Used = true
+		} else if self.currentModule.CurrentFunction.FnType.Kind() == normalFunctionKind {
 			currFn := self.currentModule.CurrentFunction.FnType.(normalFunction)
 			if fn.FnType.Kind() == normalFunctionKind {
 				toBeCalled := fn.FnType.(normalFunction)
@@ -702,8 +705,8 @@ func (self *Analyzer) assignExpression(node pAst.AssignExpression) ast.AnalyzedA
 		switch node.AssignOperator {
 		case pAst.StdAssignOperatorKind, pAst.PlusAssignOperatorKind,
 			pAst.MinusAssignOperatorKind, pAst.MultiplyAssignOperatorKind,
-			pAst.DivideAssignOperatorKind, pAst.ModuloAssignOperatorKind,
-			pAst.PowerAssignOperatorKind:
+			pAst.DivideAssignOperatorKind, pAst.PowerAssignOperatorKind:
+			// (`%=` is not defined on floats, just like the infix operator `%`)
 		default:
 			if prevErr {
 				break
